@@ -3,7 +3,7 @@
 import json, glob, os, re
 ROOT = os.path.dirname(os.path.dirname(os.path.abspath(__file__)))
 rows = []
-for d in sorted(glob.glob(os.path.join(ROOT, "seeded", "*"))):
+for d in sorted(glob.glob(os.path.join(ROOT, "seeded", "C*-*"))):
     m = json.load(open(os.path.join(d, "meta.json")))
     notes = open(os.path.join(d, "notes.md")).read() if os.path.exists(os.path.join(d, "notes.md")) else ""
     title = next((l.strip("# ").strip() for l in notes.splitlines() if l.strip()), "")[:110]
